@@ -321,6 +321,7 @@ struct Transfer {
             rp.to = to == SJID ? 0 : 1;
             res.push_back(rp);
             replies.push_back(rp);
+            stat(rp.ok ? "reply_result" : "reply_" + rp.cond.toStdString());
         }
         W->r.out.clear();
         return res;
@@ -369,6 +370,7 @@ struct Transfer {
         replies.clear();
         std::istringstream is(op);
         std::string w; is >> w;
+        stat("op_" + w);
         const bool onData = pending && pending->kind == Ibb::Data;
         const int faultsBefore = faults + harmlessDups;
         if (w == "deliver") {
@@ -477,7 +479,8 @@ static long long totalOps = 0;
 //  (2) no fault at all  ⇒ both jobs finish without error and the bytes are identical;
 //  (3) exactly one fault that hit a data block (lost / reordered / altered / mislabelled / stream cut short) and an honest
 //      channel otherwise ⇒ the receiving job never reports success.  A duplicated block is judged by (1) plus "the copy is
-//      refused and not written" (see AGENT report: the duplicate is answered with <unexpected-request/>, the job goes on).
+//      refused and not written": the code answers the copy with <unexpected-request/>, does not write it, and the transfer
+//      completes with identical bytes (theorem duplicate_is_refused_and_harmless) — read as satisfying the property.
 static void judge(Transfer &t, const Case &c, const std::string &replay)
 {
     const long long blocks = c.bsS > 0 ? (c.data.size() + c.bsS - 1) / c.bsS : 0;
@@ -559,7 +562,7 @@ struct SocksRun {
     }
 };
 
-static bool spinUntil(const std::function<bool()> &cond, int ms = 3000)
+static bool spinUntil(const std::function<bool()> &cond, int ms = 20000)
 {
     QElapsedTimer t; t.start();
     while (!cond() && t.elapsed() < ms) QCoreApplication::processEvents(QEventLoop::AllEvents, 5);
@@ -608,7 +611,7 @@ static void runSocks(const QByteArray &announced, bool withHash, bool withSize, 
     const QString hosts = QStringLiteral("<iq id=\"hosts1\" to=\"%1\" from=\"%2\" type=\"set\"><query xmlns=\"http://jabber.org/protocol/bytestreams\" sid=\"%3\">"
                                          "<streamhost jid=\"%2\" host=\"127.0.0.1\" port=\"%4\"/></query></iq>").arg(RJID, SJID, sid).arg(server.serverPort());
     w.r.receiveXml(hosts);
-    if (!spinUntil([&]() { return accepted && run.rj->state() == QXmppTransferJob::TransferState; })) {
+    if (!spinUntil([&]() { return accepted && run.rj->state() == QXmppTransferJob::TransferState; }, 5000)) {
         // no loopback TCP in this environment: documented as not exercised
         socksAvailable = false; stat("socks_skipped");
         delete run.rj; w.incoming = nullptr; w.acceptInto = nullptr;
@@ -630,7 +633,7 @@ static void runSocks(const QByteArray &announced, bool withHash, bool withSize, 
     // the peer closes the connection
     const bool wasFinished = run.rj->state() == QXmppTransferJob::FinishedState;
     accepted->disconnectFromHost();
-    spinUntil([&]() { return run.rj->state() == QXmppTransferJob::FinishedState; }, 2000);
+    spinUntil([&]() { return run.rj->state() == QXmppTransferJob::FinishedState; }, 20000);
     QCoreApplication::processEvents();
     (void)wasFinished;
     corr("disc", run.obs());
@@ -669,6 +672,10 @@ int main(int argc, char **argv)
     std::vector<int> blockSizes = { 1, 2, 16 };
     if (thorough) blockSizes.push_back(4096);
 
+    // ---- 0. corpus: minimized past findings first (the 65537-block case is section 4)
+    runCase({ 2, 4096, false, "hex", QByteArray::fromHex("b66071"), { "deliver", "flip 0" } });
+    runCase({ 2, 4096, true, "hex", QByteArray::fromHex("b66071"), { "deliver", "flip 0" } });
+    runCase({ 2, 4096, false, "hex", QByteArray::fromHex("b66071"), { "deliver", "swap" } });
     // ---- 1. honest runs + every single fault at every position, sizes around the block boundaries
     for (int b : blockSizes) {
         std::vector<long> sizes = { 0, 1, b - 1L, b, b + 1L, 3L * b + 2 };
